@@ -117,6 +117,8 @@ def smt(tier, rep):
                        [z3.InRe(s, R.rx(T.SEMVER_STR_REGEX)),
                         z3.Not(z3.InRe(s, z3.Concat(z3.Plus(z3.Range("0", "9")), z3.Re("."), z3.Plus(z3.Range("0", "9")),
                                                      z3.Re("."), z3.Plus(z3.Range("0", "9")))))], want=[s]))
+    out.append(R.query("L6: every version component of a valid entry-point name is a canonical decimal (int -> str gives it back)",
+                       [z3.InRe(s, R.rx(T.SEMVER_STR_REGEX)), z3.Not(z3.InRe(s, ver))], want=[s]))
     # non-vacuity twin: the languages are inhabited
     out.append(R.query("W: witness - some valid entry-point name exists (reachability twin)",
                        [z3.InRe(s, ep), z3.Length(s) > 8], expect="sat", want=[s]))
@@ -142,6 +144,10 @@ def _replay_lemma(rec, rep):
         elif rec["name"].startswith("L2"):
             EPName(w)
             bad = False
+        elif rec["name"].startswith("L6"):
+            e = EPName("xa.pa__" + w)
+            bad = to_ep_name(*from_ep_name(e)) != e
+            rec["replay_exc"] = "entry-point name %r -> %r -> %r" % (str(e), from_ep_name(e), str(to_ep_name(*from_ep_name(e))))
         elif rec["name"].startswith("L4") or rec["name"].startswith("L5"):
             n, v = from_ep_name(EPName(w)) if rec["name"].startswith("L4") else ("x", None)
             bad = False
